@@ -138,6 +138,56 @@ def run(ctx):
                 for k in list(sys.modules):
                     if k.split(".")[0] == pkg:
                         del sys.modules[k]
+        # kept values whose stored form is empty or easily taken for 'nothing' ('' and b'' are zero-length files): over a
+        # v1, v2, v1 history every path serves the value its keep returned - in the same process, through a second handle on the
+        # same directories, and in a fresh process
+        for vi, store_kind in enumerate(["local", "local_lru"]):
+            base = tempfile.mkdtemp(prefix="ddsverif_c04e_")
+            pkg = "c4e_%d_%d" % (os.getpid(), vi)
+            try:
+                real.reset_process_state()
+                real.set_store(store_kind, os.path.join(base, "si"), os.path.join(base, "sd"))
+                for step, (e1, e2, e3) in enumerate([("''", "b''", "'x'"), ("'y'", "b'z'", "''"), ("''", "b''", "'x'")]):
+                    src = ("import dds\nfrom ddsverif_rt import log\n\n"
+                           "def s1():\n    return %s\n\ndef s2():\n    return %s\n\ndef s3():\n    return %s\n\n"
+                           "def n1():\n    return None\n\ndef n2():\n    return bytearray()\n\n"
+                           "def f0():\n    return (dds.keep('/e/s1', s1), dds.keep('/e/d/s2', s2), dds.keep('/e/s3', s3), dds.keep('/e/n1', n1), "
+                           "dds.keep('/e/n2', n2))\n" % (e1, e2, e3))
+                    want = {"/e/s1": eval(e1), "/e/d/s2": eval(e2), "/e/s3": eval(e3), "/e/n1": None, "/e/n2": bytearray()}
+                    os.makedirs(os.path.join(base, pkg), exist_ok=True)
+                    open(os.path.join(base, pkg, "__init__.py"), "w").close()
+                    with open(os.path.join(base, pkg, "main.py"), "w") as fh:
+                        fh.write(src)
+                    real.load_world(base, pkg + ".main", None, accept=pkg)
+                    r = real.run({"kind": "eval", "fun": "f0"})
+                    res.evaluations += 1
+                    res.count("empty_value_steps")
+                    res.nontrivial("empty values %s %d" % (store_kind, step))
+                    bad = None
+                    if r["error"] is not None or r["value"] != tuple(want[k] for k in ("/e/s1", "/e/d/s2", "/e/s3", "/e/n1", "/e/n2")):
+                        bad = "the evaluation returned %r (error %s)" % (r["value"], r["error"])
+                    else:
+                        if fresh[0] is None:
+                            fresh[0] = pipeline.WorkerProc("real")
+                        fresh[0].call(cmd="store", kind="local", internal_dir=os.path.join(base, "si"), data_dir=os.path.join(base, "sd"))
+                        for pth, w in sorted(want.items()):
+                            got = real.load_path(pth)
+                            got2 = fresh[0].call(cmd="load", path=pth)
+                            for who, g_ in (("the same process", got), ("a fresh process", got2)):
+                                gv = g_.get("value")
+                                if g_.get("error") is not None or (gv != w and gv != repr(w) and not (isinstance(w, (bytes, bytearray)) and gv in (repr(bytes(w)), repr(bytearray(w)), bytes(w)))):
+                                    bad = "path %s: the keep returned %r, dds.load in %s gives %s" % (pth, w, who, g_)
+                                    break
+                            if bad:
+                                break
+                    if bad:
+                        res.violations.append({"what": bad, "input": {"source": src, "store": store_kind, "step": step}, "kf": None})
+                        break
+            finally:
+                shutil.rmtree(base, ignore_errors=True)
+                for k in list(sys.modules):
+                    if k.split(".")[0] == pkg:
+                        del sys.modules[k]
     finally:
         if fresh[0] is not None:
             fresh[0].close()
